@@ -111,6 +111,22 @@ def check_prefixes(rep, drv, case, mode, data, with_schema, cuts):
                     rep.fail('prefix-open-stream-none-on-zero-' + '-'.join(o[-2:]),
                              'open stream answering None to read(0), holding a proper prefix (cut %d of %d) -> %s' % (k, len(data), o),
                              dict(base, seekable=True, none_on_zero=True))
+            # (b'') / (c'') the non-seekable source behind the standard library's buffering (io.BufferedReader over a pipe,
+            # a socket's makefile('rb'), sys.stdin.buffer): closed at the cut -> end of stream; still open -> only underruns
+            if not seekable:
+                raw = streams.GrowingStream(seekable=False)
+                raw.feed(pre)
+                raw.close_input()
+                o = stream_outcome(dec, io.BufferedReader(raw), schema)
+                if o != ['EOS']:
+                    rep.fail('prefix-closed-buffered-' + '-'.join(o[-2:]), 'io.BufferedReader over a non-seekable source closed at cut %d of %d -> %s' % (
+                        k, len(data), o), dict(base, stream='buffered-nonseekable'))
+                raw = streams.GrowingStream(seekable=False)
+                raw.feed(pre)
+                o = stream_outcome(dec, io.BufferedReader(raw), schema, max_steps=4)
+                if any(x != 'U' for x in o):
+                    rep.fail('prefix-open-buffered-' + '-'.join(o[-2:]), 'io.BufferedReader over an open non-seekable source holding a proper prefix '
+                             '(cut %d of %d) -> %s' % (k, len(data), o), dict(base, stream='buffered-nonseekable'))
             # (c) the same stream still open: only underruns
             s = streams.GrowingStream(seekable=seekable)
             s.feed(pre)
